@@ -16,7 +16,7 @@ EXPLANATION = (
     "unique_any_sender does not convert to any_sender (R4). Not decided: observational equivalence of wrapped and "
     "unwrapped executions.")
 ASSUMPTIONS = ["the default configuration (PIKA_DETAIL_ENABLE_ANY_SENDER_SBO off) stores every sender on the heap; the embedded-storage configuration is analysed in the thorough tier"]
-FLOORS = {"C18.R1": 10, "C18.R2": 4, "C18.R3": 4, "C18.R4": 7}
+FLOORS = {"C18.R1": 10, "C18.R2": 4, "C18.R3": 4, "C18.R4": 7, "C18.R5": 1}
 
 MS = "pika::detail::movable_sbo_storage"
 CS = "pika::detail::copyable_sbo_storage"
@@ -145,6 +145,45 @@ def run(rep, tier):
     if tier == "thorough":
         D2 = facts(rep, driver("c18_erasure.cpp"), sel, extra=["-DPIKA_DETAIL_ENABLE_ANY_SENDER_SBO"])
         storage_rules(rep, D2, " PIKA_DETAIL_ENABLE_ANY_SENDER_SBO")
+
+    # ---- R5: the type-erased receiver turns a throwing hand-over of the values into set_error
+    rep.rule("C18.R5", "K6: any_receiver::set_value passes the values to a virtual member that takes them *by value*: their copy/move happens in the caller and "
+             "may throw (a sender that sends const references, a throwing copy constructor); the forwarding call therefore sits in a try block whose handler "
+             "completes the wrapped receiver with set_error - exactly what the unerased pipeline does - instead of escaping from a noexcept function (terminate)")
+    AR = facts(rep, driver("c18_erasure.cpp"), [r"^pika::execution::experimental::detail::any_receiver::set_value$"])
+    ars = [f for f in AR.find(r"any_receiver::set_value$") if f.parent == -1]
+    if not ars:
+        raise AnalysisBroken("any_receiver::set_value not found")
+    n5 = 0
+    for f in ars:
+        fw = [(b, i, e) for b, i, e in f.all_events() if e.get("k") == "call" and callee_short(e) == "set_value"]
+        if not fw:
+            if f.pattern and not any(True for _ in f.all_events()):
+                continue
+            raise AnalysisBroken("%s: forwarding set_value call not found" % f.full)
+        for b, i, e in fw:
+            n5 += 1
+            tid = e.get("try")
+            hs = (f.tries.get(tid) or {}).get("handlers", []) if tid is not None else []
+            errs = False
+            for h in hs:
+                seen, work = set(), [h["block"]]
+                while work:
+                    v = work.pop()
+                    if v in seen or v not in f.blocks:
+                        continue
+                    seen.add(v)
+                    if any(x.get("k") == "call" and callee_short(x) == "set_error" for x in f.blocks[v].events):
+                        errs = True
+                    work += [t for _, t in f.succs(v)]
+            if tid is not None and errs:
+                rep.ok("C18.R5", f, "the forwarding set_value call is guarded; the handler completes with set_error")
+            else:
+                rep.bad("C18.R5", f, loc_of(e), "erased-set_value-unguarded", "any_receiver::set_value forwards the values to the by-value virtual outside a try block that ends in "
+                        "set_error (%s): a throwing copy/move of a value at the erasure boundary terminates the program where the unwrapped sender completes "
+                        "with set_error" % ("no try block" if tid is None else "handler does not call set_error"))
+    if n5 < 1:
+        raise AnalysisBroken("C18.R5: no forwarding call examined")
 
     # ---- R2
     for cls, what in (("empty_unique_any_sender", "unique_any_sender"), ("empty_any_sender", "any_sender")):
